@@ -4,7 +4,7 @@ import uuid
 from check import hx
 
 KDF_ALG = "SP800_108_CTR_HMAC"
-NAMES = ["", "a", "domain.test", "FOREST.LOCAL", "dömäin.tëst", "日本.テスト", "😀.corp", "x" * 63, "a\x00b", "ab", "abc"]
+NAMES = ["", "a", "domain.test", "FOREST.LOCAL", "dömäin.tëst", "日本.テスト", "😀.corp", "x" * 63, "a\x00b", "ab", "abc", "\ufeffcorp.example", "\ufffecorp", "corp\ufeff"]
 HASHES = ["SHA1", "SHA256", "SHA384", "SHA512"]
 
 
@@ -13,7 +13,10 @@ def u16(s: str) -> bytes:
 
 
 def rand_name(rng):
-    return rng.choice(NAMES) if rng.random() < 0.7 else "".join(rng.choice("abcXYZ.-_é中😀") for _ in range(rng.randrange(0, 12)))
+    if rng.random() < 0.7:
+        return rng.choice(NAMES)
+    # (U+FEFF / U+FFFE are ordinary characters in a UTF-16-LE field: no byte-order-mark sniffing; U+0000 may occur inside a name)
+    return "".join(rng.choice("abcXYZ.-_é中😀\ufeff\ufffe") for _ in range(rng.randrange(0, 12)))
 
 
 def rand_u32(rng):
